@@ -1025,6 +1025,31 @@ def sign_algebra_specs(ty="f32"):
     return exprs, cmps
 
 
+def _signzero_probes():
+    """every way the rewriter can turn an expression of value +-0 into one of the other sign, under each sign-sensitive kind"""
+    P = []
+    for ty in ("f32", "f64"):
+        x = sym_spec("x", ty)
+        c = lambda v: ["const", ["i", v], x]
+        cf = lambda v: ["const", vfloat(v, "py"), x]
+        E = {
+            "0-x": ["subtract", c(0), x], "0.0-x": ["subtract", cf(0.0), x], "x-0": ["subtract", x, c(0)], "x+0": ["add", x, c(0)], "0+x": ["add", c(0), x],
+            "x+0.0": ["add", x, cf(0.0)], "x+(-0.0)": ["add", x, cf(-0.0)], "x*1": ["multiply", x, c(1)], "1*x": ["multiply", c(1), x], "x/1": ["divide", x, c(1)],
+            "-(-x)": ["negative", ["negative", x]], "x*(-1)": ["multiply", x, c(-1)], "-(x-y)": ["negative", ["subtract", x, sym_spec("y", ty)]],
+            "x-x": ["subtract", x, x], "0*x": ["multiply", c(0), x], "x*0": ["multiply", x, c(0)], "0/x": ["divide", c(0), x], "-0": ["negative", c(0)],
+            "abs(-x)": ["absolute", ["negative", x]], "x+x": ["add", x, x], "+x": ["positive", x], "sqrt(x*x)": ["sqrt", ["multiply", x, x]],
+            "min(x,x)": ["minimum", x, x], "max(x,0)": ["maximum", x, c(0)], "select(x<0,x,0)": ["select", ["lt", x, c(0)], x, c(0)],
+        }
+        for en, e in E.items():
+            W = {"atan2(E,-1)": ["atan2", e, c(-1)], "copysign(1,E)": ["copysign", c(1), e], "1/E": ["divide", c(1), e], "sign(E)": ["sign", e]}
+            for wn, w in W.items():
+                P.append((f"signzero:{ty}:{wn}:E={en}", (lambda w=w: w)))
+    return P
+
+
+SIGNZERO_DIRECTED = _signzero_probes()
+
+
 INFER_DIRECTED = [
     ("_is_one(square(-1))", lambda: ["square", ["const", ["i", -1], sym_spec("x", "f32")]]),
     ("_is_one(abs(-1.0))", lambda: ["absolute", ["const", vfloat(-1.0, "py"), sym_spec("x", "f64")]]),
@@ -1063,9 +1088,10 @@ def run(ctx):
                 if v["theorem"] in b["name"] or "tables_sound" in b["name"]:
                     b["has_failing_input"] = True
     ctx.notes["table_rows_failing_on_real_code"] = sorted(f"{k[0]}:({k[1][1:]},{k[2][1:]})" for k in rows_failing)
-    dspecs = [mk() for _, mk in DIRECTED]
+    DIR = DIRECTED + SIGNZERO_DIRECTED
+    dspecs = [mk() for _, mk in DIR]
     dres = run_jobs("search", dspecs, extra=[gen_assignments(ctx.rng, s, 10) + boundary_assignments(s) for s in dspecs])
-    for (label, _), spec, r in zip(DIRECTED, dspecs, dres):
+    for (label, _), spec, r in zip(DIR, dspecs, dres):
         ctx.count("probe:directed")
         ctx.case(key=("directed", label), nontrivial=True)
         report_search(ctx, spec, r, origin=f"directed probe `{label}`")
@@ -1233,7 +1259,9 @@ def boundary_assignments(spec):
     """the all-zero, all-one, all-equal assignments (the 0-vs-0 case of the relational tables)"""
     syms = symbols_of(spec)
     out = []
-    for val in (0, 1, -1):
+    for val in (0, 1, -1, "-0"):
+        negz = val == "-0"
+        val = 0 if negz else val
         q, f = {}, {}
         for name, tag in syms.items():
             if tag is None:
@@ -1243,7 +1271,7 @@ def boundary_assignments(spec):
             elif tag == "i":
                 q[name], f[name] = [val, 1], ["i", val]
             else:
-                q[name], f[name] = [val, 1], [tag, W.float_bits(float(val), tag)]
+                q[name], f[name] = [val, 1], [tag, W.float_bits(-0.0 if negz else float(val), tag)]
         out.append(dict(q=q, f=f))
     return out
 
